@@ -38,8 +38,8 @@ CHECKS = {
                   'cursor value and coap_print_link receives end - cursor. The filter compares a pattern with a value/token/path only within, and decides an exact match against, the length of the string actually compared. Window/total/truncation exactness and the rest of the filter semantics are not decided.',
              design='6 C20'),
  'C09': dict(technique='call-exactly-once / hand-over / store-and-link typestate on the release callback (R-RELEASE-ONCE), compare-within-length relation analysis on the transfer keys (R-CMP-BOUND)',
-             text='Decides two clauses of C09: transfers are told apart by their full keys (token, Request-Tag, query, path compared only with the compared length known within/equal to both operands\' lengths), and the sender\'s release callback runs exactly once on every path of every function that takes a release_func and of '
-                  'the lg_xmit deleter. One genuine defect (request == NULL in coap_add_data_large_response_lkd) is a known finding. Body integrity, tiling, '
+             text='Decides three clauses of C09: a reassembled request body is handed to the application from a block with the More bit set only when the final block is known to have been seen; transfers are told apart by their full keys (token, Request-Tag, query, path compared only with the compared length known within/equal to both operands\' lengths), and the sender\'s release callback runs exactly once on every path of every function that takes a release_func and of '
+                  'the lg_xmit deleter. Two genuine defects (request == NULL in coap_add_data_large_response_lkd; premature delivery of a Q-Block1 body without Size1) are known findings. Body integrity, tiling, '
                   'at-most-once delivery, token hiding and size fitting quantify over runtime lengths and schedules and are not decided.',
              design='6 C09'),
  'C10': dict(technique='linear ownership of the response object (R-OWN-PDU) and emission-count typestate over coap_dispatch/handle_request (R-REPLY-ONCE), flag/class agreement of the suppression decision table (R-SUPPRESS-TAB), ACK-only-under-a-type-test clause',
@@ -98,7 +98,7 @@ CHECKS = {
              text='Every path of every library function: temporary session references are paired; every object type that stores a session reference '
                   '(computed from the assignments) releases it before it is freed or cleared, also through freeing helpers; a server session is freed only '
                   'after SERVER_SESSION_DEL was raised for it; strings/binaries/optlists/cache keys created in a function are released, stored, returned or '
-                  'handed on on every path; the context destructor drains every collection of reference holders before the endpoint destructor that only frees unreferenced sessions; a holder whose reference was released does not keep the old pointer; a session made in a function is freed or released there only after it was added to a session table (the free unlinks it, and unlinking a never-added element drops the whole table). Necessary for "live while referenced; everything released; one NEW/DEL event". Peer-to-session bijection and '
+                  'handed on on every path; the context destructor drains every collection of reference holders before the endpoint destructor that only frees unreferenced sessions; a holder whose reference was released does not keep the old pointer; a function that takes over an object it is handed agrees with itself, over all its failure returns, on who owns the object afterwards; a session made in a function is freed or released there only after it was added to a session table (the free unlinks it, and unlinking a never-added element drops the whole table). Necessary for "live while referenced; everything released; one NEW/DEL event". Peer-to-session bijection and '
                   'reclamation timing are not decided.',
              design='6 C12'),
  'C18': dict(technique='NULL-check typestate for computed may-fail constructors (R-ALLOC-NULL) + linear ownership of PDUs with computed consumer summaries (R-OWN-PDU), alias-window typestate after shallow struct copies against computed destructor frees (R-SHALLOW-ALIAS), fresh-holder field ownership (R-HOLDER-LEAK), linear ownership of local strings/binaries/optlists/cache keys (R-OWN-LOCAL), dead-after-destructor typestate with computed destructors (R-USE-AFTER-DESTROY), reallocation commit rule (R-REALLOC-COMMIT)',
